@@ -1,4 +1,4 @@
-(* C33 - the five defective regions: concrete histories (replayed on the implementation on every run,
+(* C33 - the defective regions: concrete histories (replayed on the implementation on every run,
    findings/C33.json) after whose last, successful, commit/rollback the session disagrees with the
    database.  Each is outside the guard. *)
 From Coq Require Import List ZArith Bool Arith.
@@ -24,18 +24,15 @@ Definition w_d5 : list op :=
 (* D6: close() leaves the object in the deleted state attached although the transaction that deleted
    the row was rolled back *)
 Definition w_d6 : list op := [ONew 2 3; OCommit; ODel 0; OFlush; OClose; OCommit].
+(* D8 (expire_on_commit=False): an object deleted and committed stays in the deleted state, attached; no
+   transaction refers to it any more, so not even close() detaches it; another object re-creates the row *)
+Definition w_d8 : list op := [ONew 1 0; OCommit; ODel 0; OCommit; ONew 1 5; OCommit; OClose; OCommit].
 
-Definition refutes (ps : list op) : bool :=
-  match final true ps with
+Definition refutes (e : bool) (ps : list op) : bool :=
+  match final e ps with
   | (Ok, st) => is_boundary (last ps OFlush) && negb (agrees st)
   | _ => false
   end.
-
-Lemma refuted_d1 : refutes w_d1 = true. Proof. vm_compute. reflexivity. Qed.
-Lemma refuted_d2 : refutes w_d2 = true. Proof. vm_compute. reflexivity. Qed.
-Lemma refuted_d3 : refutes w_d3 = true. Proof. vm_compute. reflexivity. Qed.
-Lemma refuted_d5 : refutes w_d5 = true. Proof. vm_compute. reflexivity. Qed.
-Lemma refuted_d6 : refutes w_d6 = true. Proof. vm_compute. reflexivity. Qed.
 
 (* each witness leaves the guard exactly at the operation named in the comment *)
 Fixpoint first_unguarded (st : sess) (ps : list op) (i : nat) : option nat :=
@@ -43,18 +40,31 @@ Fixpoint first_unguarded (st : sess) (ps : list op) (i : nat) : option nat :=
   | [] => None
   | p :: r => if guard st p then first_unguarded (snd (do_op p st)) r (S i) else Some i
   end.
-Lemma unguarded_d1 : first_unguarded (sess0 true) w_d1 0 = Some 4%nat. Proof. vm_compute. reflexivity. Qed.
-Lemma unguarded_d2 : first_unguarded (sess0 true) w_d2 0 = Some 8%nat. Proof. vm_compute. reflexivity. Qed.
-Lemma unguarded_d3 : first_unguarded (sess0 true) w_d3 0 = Some 8%nat. Proof. vm_compute. reflexivity. Qed.
-Lemma unguarded_d5 : first_unguarded (sess0 true) w_d5 0 = Some 4%nat. Proof. vm_compute. reflexivity. Qed.
-Lemma unguarded_d6 : first_unguarded (sess0 true) w_d6 0 = Some 4%nat. Proof. vm_compute. reflexivity. Qed.
 
-(* all five at once *)
-Definition witnesses : list (list op) := [w_d1; w_d2; w_d3; w_d5; w_d6].
-Theorem agreement_refuted : forall ps, In ps witnesses ->
-  is_boundary (last ps OFlush) = true /\ fst (final true ps) = Ok /\ agrees (snd (final true ps)) = false /\
-  first_unguarded (sess0 true) ps 0 <> None.
+Lemma refuted_d1 : refutes true w_d1 = true. Proof. vm_compute. reflexivity. Qed.
+Lemma refuted_d5 : refutes true w_d5 = true. Proof. vm_compute. reflexivity. Qed.
+Lemma refuted_d8 : refutes false w_d8 = true. Proof. vm_compute. reflexivity. Qed.
+Lemma unguarded_d1 : first_unguarded (sess0 true) w_d1 0 = Some 4%nat. Proof. vm_compute. reflexivity. Qed.
+Lemma unguarded_d5 : first_unguarded (sess0 true) w_d5 0 = Some 4%nat. Proof. vm_compute. reflexivity. Qed.
+Lemma unguarded_d8 : first_unguarded (sess0 false) w_d8 0 = Some 6%nat. Proof. vm_compute. reflexivity. Qed.
+
+(* the remaining defects at once: (expire_on_commit, history) *)
+Definition witnesses : list (bool * list op) := [(true, w_d1); (true, w_d5); (false, w_d8)].
+Theorem agreement_refuted : forall w, In w witnesses ->
+  is_boundary (last (snd w) OFlush) = true /\ fst (final (fst w) (snd w)) = Ok /\
+  agrees (snd (final (fst w) (snd w))) = false /\
+  first_unguarded (sess0 (fst w)) (snd w) 0 <> None.
 Proof.
-  intros ps H. cbn [witnesses In] in H.
-  destruct H as [H|[H|[H|[H|[H|[]]]]]]; subst ps; vm_compute; repeat split; discriminate.
+  intros w H. cbn [witnesses In] in H.
+  destruct H as [H|[H|[H|[]]]]; subst w; vm_compute; repeat split; discriminate.
+Qed.
+
+(* the witnesses of the three repaired defects (D2 f8f802f, D3 0c90c34, D6 9732dc8) are guarded histories
+   now and end in agreement *)
+Definition repaired : list (list op) := [w_d2; w_d3; w_d6].
+Theorem repaired_agree : forall ps, In ps repaired ->
+  fst (final true ps) = Ok /\ agrees (snd (final true ps)) = true /\ first_unguarded (sess0 true) ps 0 = None.
+Proof.
+  intros ps H. cbn [repaired In] in H.
+  destruct H as [H|[H|[H|[]]]]; subst ps; vm_compute; repeat split; reflexivity.
 Qed.
